@@ -369,3 +369,9 @@ func (m MsgSpec) Frame() []byte {
 	return layer.IPv4{TTL: 64, Protocol: 0x11, Source: src, Destination: dst,
 		Data: layer.UDP{SrcPort: 68, DstPort: 67, Data: body}.Assemble()}.Assemble()
 }
+
+// newServerOn builds the real server on a given interface and context (no Run loop started).
+func newServerOn(ctx context.Context, iface *net.Interface, c *SrvConf) (*server.Server, error) {
+	libif.SetFakeAddr(iface, c.SelfIP)
+	return server.New(ctx, log.New(io.Discard, "", 0), iface, c.Proto())
+}
